@@ -30,6 +30,8 @@ type table struct {
 	name     [][]byte // Brdname, all bytes
 	title    [][]byte // Title, all bytes
 	grp      []bool
+	gid      []int
+	cc       []int
 	sorted   [2][]int
 	low      [][]byte // the C string of the name, ASCII lower-cased
 	cls4     [][]byte // the C string of Title[:4]
@@ -130,6 +132,8 @@ func readTable() *table {
 		t.name = append(t.name, append([]byte{}, b.Brdname[:]...))
 		t.title = append(t.title, append([]byte{}, b.Title[:]...))
 		t.grp = append(t.grp, b.BrdAttr&(ptttype.BRD_GROUPBOARD|ptttype.BRD_SYMBOLIC) != 0)
+		t.gid = append(t.gid, int(b.Gid))
+		t.cc = append(t.cc, int(b.ChildCount))
 		t.low = append(t.low, lower(cstr(b.Brdname[:])))
 		t.cls4 = append(t.cls4, append([]byte{}, cstr(b.Title[:4])...))
 		if len(t.low[i]) == 0 {
@@ -721,6 +725,188 @@ func judgePage(line, out string, auto bool, by ptttype.BSortBy, isAsc bool, n in
 		return
 	}
 	report(i, key, ood, "%s gives %s, the scan gives %s | table %s", line, trunc(out, 200), trunc(want, 200), t.showSorted(k))
+}
+
+// ---- the class listings: slot order, paged by bid ---------------------------------------------------
+
+// classes: the bids (1-based, slot order) of the non-vacated group/symbolic boards from slot `from` (0-based) on.
+func (t *table) classes(from int) []int {
+	var out []int
+	for b := from; b >= 0 && b < t.n; b++ {
+		if len(t.low[b]) > 0 && t.grp[b] {
+			out = append(out, b+1)
+		}
+	}
+	return out
+}
+
+func (t *table) lastIsClass() bool { return t.n > 0 && len(t.low[t.n-1]) > 0 && t.grp[t.n-1] }
+
+func (t *table) showSlots() string {
+	var s []string
+	for b := 0; b < t.n && b < 14; b++ {
+		c := ""
+		if t.grp[b] {
+			c = "*"
+		}
+		s = append(s, fmt.Sprintf("%d:%q%s", b+1, cstr(t.name[b]), c))
+	}
+	if t.n > 14 {
+		s = append(s, "...")
+	}
+	return "[" + strings.Join(s, " ") + "] (* = class)"
+}
+
+func judgeFullWalk(line, out string, n int) {
+	t := cur
+	label := "fwalk"
+	if n < 1 {
+		op(line, out, label+":n<1:unjudged", false)
+		return
+	}
+	vis := t.classes(0)
+	var pages []string
+	for s := 0; s < len(vis); s += n {
+		e := s + n
+		if e > len(vis) {
+			e = len(vis)
+		}
+		pages = append(pages, showBids(vis[s:e]))
+	}
+	if len(pages) == 0 {
+		pages = []string{"-"}
+	}
+	want := "ok " + strings.Join(pages, "/")
+	switch {
+	case len(vis) == 0:
+		label += ":nothing"
+	case len(pages) == 1:
+		label += ":one-page"
+	default:
+		label += ":pages"
+	}
+	if t.lastIsClass() {
+		label += ":class-in-last-slot"
+	}
+	i := op(line, out, label, true)
+	if out == want {
+		return
+	}
+	if out == "PANIC" {
+		fail(i, "crash:walk:fullclass", "paging the class listing with page size %d PANIC (%s) | slots %s", n, hx.LastPanic, t.showSlots())
+		return
+	}
+	fail(i, "walk:fullclass", "paging the class listing with page size %d gives %s, the scan of the board table gives %s | slots %s",
+		n, trunc(out, 200), trunc(want, 200), t.showSlots())
+}
+
+func judgeFullPage(line, out string, b, n int) {
+	t := cur
+	label := "fpage"
+	if n < 1 {
+		op(line, out, label+":n<1:unjudged", false)
+		return
+	}
+	want := "invalid-bid"
+	if b >= 1 && b <= maxBoard {
+		vis := t.classes(b - 1)
+		next := 0
+		items := vis
+		if len(vis) > n {
+			items = vis[:n]
+			next = vis[n]
+		}
+		want = "ok " + showBids(items) + " next=" + strconv.Itoa(next)
+		switch {
+		case b > t.n:
+			label += ":start-beyond"
+		case next != 0:
+			label += ":more"
+		default:
+			label += ":last"
+		}
+	} else {
+		label += ":invalid-bid"
+	}
+	i := op(line, out, label, true)
+	if out == want {
+		return
+	}
+	if out == "PANIC" {
+		fail(i, "crash:walk:fullclass", "%s PANIC (%s) | slots %s", line, hx.LastPanic, t.showSlots())
+		return
+	}
+	fail(i, "walk:fullclass", "%s gives %s, the scan of the board table gives %s | slots %s", line, trunc(out, 200), trunc(want, 200), t.showSlots())
+}
+
+// judgeChildren: bbs.LoadClassBoards = the non-vacated sub-classes whose Gid is the class, in sorted order (by class
+// for the root class 1) — all of them, whatever ChildCount was stored (key list:children+cap when there are more than
+// the ChildCount in shared memory before the call + 5: the defect repaired by ebc3be0), the same on every request.
+func judgeChildren(line, out string, c int, by ptttype.BSortBy, ccNow int) {
+	t := cur
+	k := int(by)
+	if c == 1 {
+		k = 1
+	}
+	label := "children"
+	want := "invalid-bid"
+	nSub := 0
+	capped := false
+	if c >= 1 && c <= maxBoard {
+		var sub []int
+		for _, b := range t.sorted[k] {
+			if t.gid[b] == c && len(t.low[b]) > 0 && t.grp[b] {
+				sub = append(sub, b+1)
+			}
+		}
+		nSub = len(sub)
+		want = "ok " + showBids(sub)
+		switch {
+		case nSub == 0:
+			label += ":none"
+		case nSub > 5:
+			label += ":more-than-5"
+		default:
+			label += ":some"
+		}
+		if c <= t.n && nSub > ccNow+5 {
+			capped = true
+			label += ":over-cap"
+		}
+	} else {
+		label += ":invalid-bid"
+	}
+	selfGid := false
+	for b := 0; b < t.n; b++ {
+		if t.gid[b] == b+1 {
+			selfGid = true
+		}
+	}
+	if selfGid {
+		op(line, out, label+":self-gid:unjudged", false)
+		return
+	}
+	i := op(line, out, label, true)
+	if !t.okSorted[k] || out == want {
+		return
+	}
+	if out == "PANIC" {
+		fail(i, "crash:children", "%s PANIC (%s) | slots %s", line, hx.LastPanic, t.showSlots())
+		return
+	}
+	key := "list:children"
+	if capped {
+		key += "+cap"
+	}
+	report(i, key, false, "LoadClassBoards(%d, %s) gives %s, the scan gives %s (%d sub-classes, ChildCount in the record %d, in shared memory before the call %d) | slots %s",
+		c, listingName(false, int(by)), trunc(out, 200), trunc(want, 200), nSub, ccOf(t, c), ccNow, t.showSlots())
+}
+
+func ccOf(t *table, c int) int {
+	if c >= 1 && c <= t.n {
+		return t.cc[c-1]
+	}
+	return 0
 }
 
 // ---- rendering for failure messages ---------------------------------------------------------------
